@@ -1016,6 +1016,144 @@ MODELS = {
 }
 
 
+# ---- further Option / Result / bool combinators (equivalent spellings of the ones above: a rewrite between them must not
+# change what the interpreter computes)
+
+def _bool_of(ret, cs):
+    """outcomes of using a callable's result as a condition: (python bool, conds)"""
+    if ret[0] == "c" and isinstance(ret[1], bool):
+        return [(ret[1], cs)]
+    return [(True, cs + ((_short(ret), "1"),)), (False, cs + ((_short(ret), "0"),))]
+
+
+def _m_pred(adt, some, on_absent):
+    """is_some_and / is_ok_and (on_absent False), is_none_or (on_absent True)"""
+    def m(I, fn, st, t, args, depth):
+        def pos(x, cs):
+            for ret, c2 in I.call_callable(fn, st, args[1], [x], depth):
+                yield ret, None, cs + c2
+
+        def neg(val, cs):
+            yield c(on_absent), None, cs
+        yield from _opt_map(I, fn, st, t, args, depth, pos, neg, adt=adt, some=some)
+    return m
+
+
+def m_bool_then_some(I, fn, st, t, args, depth):
+    b = args[0]
+    branches = [(True, ())] if b == c(True) else [(False, ())] if b == c(False) else [(True, ((_short(b), "1"),)), (False, ((_short(b), "0"),))]
+    for val, cs in branches:
+        yield (("e", OPT, "Some", (args[1],)) if val else ("e", OPT, "None", ())), None, cs
+
+
+def m_result_unwrap_or_else(I, fn, st, t, args, depth):
+    def ok(x, cs):
+        yield x, None, cs
+
+    def err(val, cs):
+        for ret, c2 in I.call_callable(fn, st, args[1], [val[3][0]], depth):
+            yield ret, None, cs + c2
+    yield from _opt_map(I, fn, st, t, args, depth, ok, err, adt=RES, some="Ok")
+
+
+def m_result_map_or(I, fn, st, t, args, depth):
+    def ok(x, cs):
+        for ret, c2 in I.call_callable(fn, st, args[2], [x], depth):
+            yield ret, None, cs + c2
+
+    def err(val, cs):
+        yield args[1], None, cs
+    yield from _opt_map(I, fn, st, t, args, depth, ok, err, adt=RES, some="Ok")
+
+
+def m_result_map_or_else(I, fn, st, t, args, depth):
+    def ok(x, cs):
+        for ret, c2 in I.call_callable(fn, st, args[2], [x], depth):
+            yield ret, None, cs + c2
+
+    def err(val, cs):
+        for ret, c2 in I.call_callable(fn, st, args[1], [val[3][0]], depth):
+            yield ret, None, cs + c2
+    yield from _opt_map(I, fn, st, t, args, depth, ok, err, adt=RES, some="Ok")
+
+
+def m_result_is(which):
+    def m(I, fn, st, t, args, depth):
+        for val, cs in _fork_enum(I, args[0], RES):
+            yield c(val[2] == which), None, cs
+    return m
+
+
+def m_result_err(I, fn, st, t, args, depth):
+    for val, cs in _fork_enum(I, args[0], RES):
+        yield (("e", OPT, "Some", (val[3][0],)) if val[2] == "Err" else ("e", OPT, "None", ())), None, cs
+
+
+def m_result_or_else(I, fn, st, t, args, depth):
+    def ok(x, cs):
+        yield ("e", RES, "Ok", (x,)), None, cs
+
+    def err(val, cs):
+        for ret, c2 in I.call_callable(fn, st, args[1], [val[3][0]], depth):
+            yield ret, None, cs + c2
+    yield from _opt_map(I, fn, st, t, args, depth, ok, err, adt=RES, some="Ok")
+
+
+def m_option_or(I, fn, st, t, args, depth):
+    for val, cs in _fork_enum(I, args[0], OPT):
+        yield (val if val[2] == "Some" else args[1]), None, cs
+
+
+def m_option_or_else(I, fn, st, t, args, depth):
+    def some(x, cs):
+        yield ("e", OPT, "Some", (x,)), None, cs
+
+    def none(val, cs):
+        for ret, c2 in I.call_callable(fn, st, args[1], [], depth):
+            yield ret, None, cs + c2
+    yield from _opt_map(I, fn, st, t, args, depth, some, none)
+
+
+def m_option_and(I, fn, st, t, args, depth):
+    for val, cs in _fork_enum(I, args[0], OPT):
+        yield (args[1] if val[2] == "Some" else ("e", OPT, "None", ())), None, cs
+
+
+def m_option_take(I, fn, st, t, args, depth):
+    yield args[0], {0: ("e", OPT, "None", ())}, ()
+
+
+def m_option_flatten(I, fn, st, t, args, depth):
+    for val, cs in _fork_enum(I, args[0], OPT):
+        yield (val[3][0] if val[2] == "Some" else ("e", OPT, "None", ())), None, cs
+
+
+MODELS.update({
+    "std::option::Option::<T>::is_some_and": _m_pred(OPT, "Some", False),
+    "std::option::Option::<T>::is_none_or": _m_pred(OPT, "Some", True),
+    "std::result::Result::<T, E>::is_ok_and": _m_pred(RES, "Ok", False),
+    "core::bool::<impl bool>::then_some": m_bool_then_some,
+    "std::result::Result::<T, E>::unwrap_or_else": m_result_unwrap_or_else,
+    "std::result::Result::<T, E>::map_or": m_result_map_or,
+    "std::result::Result::<T, E>::map_or_else": m_result_map_or_else,
+    "std::result::Result::<T, E>::is_ok": m_result_is("Ok"),
+    "std::result::Result::<T, E>::is_err": m_result_is("Err"),
+    "std::result::Result::<T, E>::err": m_result_err,
+    "std::result::Result::<T, E>::or_else": m_result_or_else,
+    "std::option::Option::<T>::or": m_option_or,
+    "std::option::Option::<T>::or_else": m_option_or_else,
+    "std::option::Option::<T>::and": m_option_and,
+    "std::option::Option::<T>::take": m_option_take,
+    "std::option::Option::<std::option::Option<T>>::flatten": m_option_flatten,
+    "std::option::Option::<&T>::cloned": m_option_as_ref,
+    "std::option::Option::<&T>::copied": m_option_as_ref,
+    "std::option::Option::<&mut T>::cloned": m_option_as_ref,
+    "std::option::Option::<&mut T>::copied": m_option_as_ref,
+    "std::option::Option::<T>::as_deref": m_option_as_ref,
+    "std::option::Option::<T>::as_deref_mut": m_option_as_ref,
+})
+
+
 def m_into(I, fn, st, t, args, depth):
     # resolved to a local From impl -> interpret it; otherwise identity (reflexive / std conversions keep the payload)
     res = t["callee"].get("resolved") or ""
